@@ -32,6 +32,9 @@ TECHNIQUE = "path/return classification over the CFG of html_to_nodes, regex-tre
 
 META = {
     "explanation": (
+        "html_to_nodes may be a thin wrapper (it catches RecursionError) around the function that tokenizes and converts; the rules read "
+        "that core function, the wrapper may only delegate its (text, line, renderer) unchanged or pass its own text through, and R2 "
+        "requires the GFM filter to have seen whatever either of them emits. "
         "R1 (pass-through and gate): every return of html_to_nodes is either the pass-through constructor applied to the "
         "(optionally GFM-filtered) `text` parameter itself - never a re-rendering of the parsed tree or an edited string - or "
         "lies behind the convertibility gate (a parameterless local closure that returns the pass-through call stands for it); the constructor puts its text parameter unchanged into exactly one "
@@ -47,7 +50,13 @@ META = {
         "and every start tag is kept with its source text (get_starttag_text -> Tree.nest_* -> Element.raw -> render), which the "
         "element classes render instead of re-synthesising it from the decoded attribute list; the directive body is rendered with "
         "source_end_tags=True, Tag.render omits the end tag of an element the source never closes, and the closed flag is unset by "
-        "nest_tag, set by the matching end tag in enclose and kept by deepcopy; between tokenizing and the gate only nodes whose rendering is white space are discarded "
+        "nest_tag, set by the matching end tag in enclose and kept by deepcopy; the places where html.parser (facts re-read from the "
+        "stdlib source) drops or rewrites input are covered: `</>` is kept as data by a parse_endtag override, bogus comments "
+        "(`<!x>`, `</3>`) keep, render and copy their source text, and an `&#` that stalls goahead() is kept as data, stepped over "
+        "and parsing resumed in a loop before close(); both html handlers call html_to_nodes on every path; the html_inline handler "
+        "marks its call (inline=True), the mark reaches the gate and every <div> alternative requires it unset, so a lone inline "
+        "start tag is never converted to a (content-less) admonition; flattening a <p> child writes the paragraph break before "
+        "(skippable only when nothing precedes or a break is there) and after its children; between tokenizing and the gate only nodes whose rendering is white space are discarded "
         "(Element.strip's filter and any filtering comprehension on the way are judged by what fails them), and Element.strip is "
         "applied to the fragment root only, non-recursively: inside a converted element white-space text is content; both html "
         "handlers hand token.content to html_to_nodes and attach all returned nodes. "
@@ -73,7 +82,8 @@ META = {
     "not_decided": (
         "node-for-node equality with the directive spelling for all attribute values and bodies; what the docutils option "
         "converters do with a value; what html.parser accepts as a top-level element; third-party transforms that delete raw nodes; "
-        "writes to the configuration that are not in-place set operations (C13/C15); recursion depth on pathologically nested input "
+        "writes to the configuration that are not in-place set operations (C13/C15); other html.parser quirks than the three tabled ones "
+        "(the table is a reading of the installed stdlib source, not a proof that no further input is dropped); recursion depth on pathologically nested input "
         "(Element.deepcopy/render/strip recurse once per nesting level: ~1200 nested <b> inside a div.admonition exhaust the interpreter stack - a runtime quantity)"
     ),
     "trusted_base": [
@@ -112,11 +122,41 @@ class Ctx:
         fn = corpus.find_function(self.base.resolve("html_to_nodes"))
         if fn is None:
             raise AnchorMissing("html_to_nodes (as imported by mdit_to_docutils.base) not found")
-        self.fi: FunctionInfo = fn
-        self.mod: Module = fn.module
         if len(fn.params) < 3:
             raise Unsupported("html_to_nodes signature is not (text, line, renderer)")
-        self.p_text, self.p_line, self.p_renderer = fn.params[:3]
+        # the entry point may be a thin wrapper (e.g. catching RecursionError) around the function that does the work:
+        # the rules then read the *core* (the function that tokenizes the text); the wrapper gets its own checks
+        self.entry: FunctionInfo = fn
+        self.entry_text = fn.params[0]
+        self.delegate: ast.Call | None = None
+        core, names = fn, list(fn.params[:3])
+
+        def tokenizes(f: FunctionInfo) -> bool:
+            for c in f.local_nodes():
+                if isinstance(c, ast.Call) and dotted(c.func):
+                    g = corpus.find_function(f.module.resolve(dotted(c.func)))
+                    if g is not None and g.module.name.endswith("parse_html"):
+                        return True
+                if isinstance(c, ast.Call) and isinstance(c.func, ast.Attribute) and c.func.attr == "feed":
+                    return True
+            return False
+
+        if not tokenizes(fn):
+            cands = []
+            for c in fn.local_nodes():
+                if isinstance(c, ast.Call) and isinstance(c.func, ast.Name) and c.func.id in fn.module.functions:
+                    g = fn.module.functions[c.func.id]
+                    pos = [next((i for i, a in enumerate(c.args) if isinstance(a, ast.Name) and a.id == p_), None) for p_ in fn.params[:3]]
+                    if None not in pos and not g.is_lambda and all(i < len(g.params) for i in pos) and tokenizes(g):
+                        cands.append((c, g, pos))
+            if len(cands) != 1:
+                raise Unsupported(f"html_to_nodes neither tokenizes the text nor delegates to one function that does ({len(cands)} candidates)")
+            self.delegate, core, pos = cands[0]
+            names = [core.params[i] for i in pos]
+        fn = core
+        self.fi: FunctionInfo = fn
+        self.mod: Module = fn.module
+        self.p_text, self.p_line, self.p_renderer = names
         self.cfg = get_cfg(fn)
         self.renderer_cls = corpus.cls("mdit_to_docutils.base:DocutilsRenderer")
         rd = corpus.lookup_method(self.renderer_cls, "run_directive")
@@ -177,9 +217,12 @@ class Ctx:
         return a.value
 
     def defs_of(self, name: str) -> list[ast.expr]:
+        return self.defs_in(self.fi, name)
+
+    def defs_in(self, fn: FunctionInfo, name: str) -> list[ast.expr]:
         """Values assigned to a local name by plain ``name = value`` statements; Unsupported for other stores."""
         out = []
-        for n in self.fi.local_nodes():
+        for n in fn.local_nodes():
             if isinstance(n, ast.Name) and n.id == name and isinstance(n.ctx, ast.Store):
                 p = parent(n)
                 if isinstance(p, ast.Assign) and n in p.targets:
@@ -205,10 +248,13 @@ def _resolves(mod: Module, func: ast.expr, *targets: str) -> bool:
 
 
 class Filter:
-    def __init__(self, cx: Ctx):
+    def __init__(self, cx: Ctx, fn: FunctionInfo | None = None, p_text: str | None = None):
         self.stmt: ast.stmt | None = None
+        self.fn = fn or cx.fi
+        self.p_text = p_text or cx.p_text
+        self.cfg = get_cfg(self.fn)
         cands = []
-        for n in cx.fi.local_nodes():
+        for n in self.fn.local_nodes():
             if isinstance(n, ast.Call) and isinstance(n.func, ast.Attribute) and n.func.attr in ("sub", "subn"):
                 recv = n.func.value
                 if isinstance(recv, ast.Name) and recv.id in cx.mod.const_nodes:
@@ -221,7 +267,7 @@ class Filter:
             raise Unsupported("more than one regex substitution in html_to_nodes")
         self.call, self.regex_name, self.compile_call = cands[0]
         self.is_subn = self.call.func.attr == "subn"
-        self.stmt = cx.cfg.stmt_of(self.call)
+        self.stmt = self.cfg.stmt_of(self.call)
         self.repl = arg_or_kw(self.call, 0, "repl")
         self.string = arg_or_kw(self.call, 1, "string")
         self.count = arg_or_kw(self.call, 2, "count")
@@ -240,8 +286,24 @@ class Filter:
         self.if_stmt = p if isinstance(p, ast.If) and st in p.body else None
 
 
+def _filter_core(corpus: Corpus) -> Filter:
+    """the filter statement inside the core function (may be absent: ``.stmt is None``)"""
+    return corpus.cache("c17-filter-core", lambda: Filter(_ctx(corpus)))
+
+
 def _filter(corpus: Corpus) -> Filter:
-    return corpus.cache("c17-filter", lambda: Filter(_ctx(corpus)))
+    """the GFM filter, wherever it lives: in the core function, else in the wrapper in front of it"""
+
+    def build():
+        cx = _ctx(corpus)
+        f = _filter_core(corpus)
+        if f.stmt is None and cx.entry is not cx.fi:
+            g = Filter(cx, cx.entry, cx.entry_text)
+            if g.stmt is not None:
+                return g
+        return f
+
+    return corpus.cache("c17-filter", build)
 
 
 # ---------------------------------------------------------------------------
@@ -436,6 +498,12 @@ def _expand(cx: Ctx, e: ast.expr, depth: int = 0) -> ast.expr:
                     inl = _Subst(mapping).visit(copy.deepcopy(body))
                     return _expand(cx, inl, depth + 1)
         return e
+    if isinstance(e, ast.Name) and isinstance(e.ctx, ast.Load) and e.id not in cx.fi.params:
+        # a flag bound once to a boolean combination: `on = not inline and "ext" in cfg.enable_extensions`
+        defs = cx.defs_of(e.id)
+        if len(defs) == 1 and isinstance(defs[0], (ast.BoolOp, ast.UnaryOp)) and hasattr(defs[0], "_parent"):
+            return _expand(cx, defs[0], depth + 1)
+        return e
     if isinstance(e, ast.BoolOp):
         return ast.BoolOp(op=e.op, values=[_expand(cx, v, depth) for v in e.values])
     if isinstance(e, ast.UnaryOp) and isinstance(e.op, ast.Not):
@@ -595,9 +663,44 @@ def _name_test(e: ast.expr, var: str | None = None) -> tuple[str, str] | None:
 def r1_pass_through(corpus: Corpus, rep: Report, tier: str):
     rep.rule("C17.R1", "non-converting paths return the unmodified source text as one raw html node; conversion only behind the all(img|div.admonition & extension) gate; handlers pass token.content and attach every node")
     cx = _ctx(corpus)
-    flt = _filter(corpus)
+    flt = _filter_core(corpus)
     fi, m, cfg = cx.fi, cx.mod, cx.cfg
     rep.saw_function(fi.fq)
+    # (a0) a wrapper in front of the core function only delegates or passes its own text through unchanged
+    if cx.entry is not fi:
+        ent = cx.entry
+        rep.saw_function(ent.fq)
+        eflt = Filter(cx, ent, cx.entry_text)
+        ecfg = get_cfg(ent)
+        for n in ent.local_nodes():
+            if isinstance(n, ast.Name) and n.id == cx.entry_text and isinstance(n.ctx, ast.Store):
+                st = ecfg.stmt_of(n)
+                k = f"{ent.fq}|store to {cx.entry_text}|{short(st, 80)}"
+                if eflt.stmt is not None and st is eflt.stmt:
+                    rep.ok("C17.R1", k, m.site(st), "the GFM filter (judged by R2)")
+                else:
+                    rep.violation("C17.R1", k, m.site(st), f"`{short(st, 70)}` changes the source text in the wrapper: neither the conversion nor the pass-through sees exactly the document's HTML")
+        for r in sorted((n for n in ent.local_nodes() if isinstance(n, ast.Return)), key=lambda n: n.lineno):
+            k = f"{ent.fq}|return|{short(r, 100)}|{_where(r)}"
+            parts = _split_add(r.value) if r.value is not None else []
+            if len(parts) == 1 and parts[0] is cx.delegate:
+                rep.ok("C17.R1", k, m.site(r), f"delegates (text, line, renderer) to {fi.name}")
+                continue
+            pts = []
+            for p_ in parts:
+                if isinstance(p_, ast.Call) and dotted(p_.func) and p_ is not cx.delegate:
+                    callee = corpus.find_function(m.resolve(dotted(p_.func)))
+                    if callee is not None and any(isinstance(c, ast.Call) and _resolves(callee.module, c.func, "docutils.nodes.raw") for c in callee.local_nodes()):
+                        pts.append(p_)
+            if len(pts) != 1 or any(p_ is cx.delegate for p_ in parts):
+                raise Unsupported(f"wrapper return not understood: {short(r, 70)}")
+            a0 = pts[0].args[0] if pts[0].args else None
+            if isinstance(a0, ast.Name) and a0.id == cx.entry_text:
+                rep.ok("C17.R1", k, m.site(r), f"pass-through of `{cx.entry_text}`")
+            elif isinstance(a0, (ast.Call, ast.BinOp, ast.JoinedStr, ast.Subscript, ast.Constant, ast.Attribute)):
+                rep.violation("C17.R1", k, m.site(r), f"the wrapper passes `{short(a0, 40)}` through instead of its source text parameter `{cx.entry_text}`")
+            else:
+                raise Unsupported(f"wrapper pass-through argument not understood: {short(r, 70)}")
     # (a) stores to the text parameter: only the GFM filter
     for n in fi.local_nodes():
         if isinstance(n, ast.Name) and n.id == cx.p_text and isinstance(n.ctx, ast.Store):
@@ -670,8 +773,11 @@ def r1_pass_through(corpus: Corpus, rep: Report, tier: str):
     for conj in gate["disjuncts"]:
         d = conj[0] if len(conj) == 1 else ast.BoolOp(op=ast.And(), values=list(conj) or [ast.Constant(value=True)])
         ext = tag = cls = None
+        negs: set[str] = set()
         for c in conj:
             if isinstance(c, ast.UnaryOp) and isinstance(c.op, ast.Not):
+                if isinstance(c.operand, ast.Name):
+                    negs.add(c.operand.id)
                 continue  # a negated condition only narrows the alternative
             e_ = _ext_of_flag(cx, c)
             nt = _name_test(c, var)
@@ -686,6 +792,7 @@ def r1_pass_through(corpus: Corpus, rep: Report, tier: str):
         if tag is None:
             raise Unsupported(f"gate alternative without a (positive) tag-name test: {short(d, 60) if conj else 'always true'}")
         seen_tags[tag] = (ext, cls)
+        gate.setdefault("negated", {}).setdefault(tag, []).append(negs)
         k = f"{fi.fq}|gate|<{tag}>"
         want = [(e_, v) for e_, v in CONVERTIBLE.items() if v[0] == tag]
         if not want:
@@ -758,10 +865,10 @@ def r1_pass_through(corpus: Corpus, rep: Report, tier: str):
     # (d4) between tokenizing and the gate nothing but white-space text is discarded; inner white space is kept
     _pre_gate_tree(cx, rep, gate)
     # (e) callers
-    dotted_h2n = f"{cx.mod.name}.{fi.qualname}"
+    dotted_h2n = f"{cx.entry.module.name}.{cx.entry.qualname}"
     callers = []
     for f in corpus.all_functions():
-        if f.is_lambda or f.fq == fi.fq:
+        if f.is_lambda or f.fq in (fi.fq, cx.entry.fq):
             continue
         for c in f.local_nodes():
             if isinstance(c, ast.Call) and dotted(c.func) and f.module.resolve(dotted(c.func)) == dotted_h2n:
@@ -791,7 +898,13 @@ def r1_pass_through(corpus: Corpus, rep: Report, tier: str):
             rep.violation("C17.R1", k, cx.base.site(cx.renderer_cls.node), f"no handler {h}: such tokens are not rendered as HTML")
             continue
         if meth.name in direct and meth.cls is not None:
-            rep.ok("C17.R1", k, meth.site(), "calls html_to_nodes")
+            # on every path: a short-cut that emits the token itself bypasses the conversion gate and the GFM filter
+            mcfg = get_cfg(meth)
+            cstmts = [mcfg.stmt_of(c) for f_, c in callers if f_.fq == meth.fq]
+            if mcfg.paths_avoiding("ENTRY", "EXIT", lambda x: any(x is cs for cs in cstmts)):
+                rep.violation("C17.R1", k, meth.site(), f"{h} reaches its end on a path that does not call html_to_nodes: tokens taking that short-cut are emitted (or dropped) without the convertibility gate and without the GFM disallowed-tag filter, which lives in html_to_nodes")
+            else:
+                rep.ok("C17.R1", k, meth.site(), "calls html_to_nodes on every path")
             continue
         ok = False
         body = [s for s in meth.node.body if not (isinstance(s, ast.Expr) and isinstance(s.value, ast.Constant))]
@@ -804,7 +917,110 @@ def r1_pass_through(corpus: Corpus, rep: Report, tier: str):
             rep.ok("C17.R1", k, meth.site(), f"delegates its token to {unparse(body[0].value.func)}")
         else:
             rep.violation("C17.R1", k, meth.site(), f"{h} does not hand its token to html_to_nodes (directly or via the block handler): the HTML does not reach the output as the raw node")
+    # (f) an html_inline token is a single tag: it can never be a (content-carrying) admonition block
+    _inline_not_admonition(cx, rep, gate, callers)
+    # (g) flattening a <p> child separates its text from what precedes and from what follows
+    _paragraph_flattening(cx, rep)
     rep.expect_min("C17.R1", 16, "5 pass-through returns, 2 conversion returns, 3 constructor facts, 3 gate facts, 2 dispatches, 4 caller facts on the pinned tree")
+
+
+def _inline_not_admonition(cx: Ctx, rep: Report, gate: dict, callers) -> None:
+    """`a <div class="admonition">text</div> b`: markdown-it hands the start tag alone to the html_inline handler. Converted as a
+    block it can only fail ('Content block expected') and leaves an unbalanced `</div>`; with the admonition alternative
+    switched off for inline tokens the tag stays raw HTML. Obligation: the handler marks the call as inline, the mark reaches
+    the function holding the gate, and every <div> alternative of the gate requires the mark to be unset."""
+    adm_tag = CONVERTIBLE["html_admonition"][0]
+    meth = cx.corpus.lookup_method(cx.renderer_cls, "render_html_inline")
+    k = f"{cx.renderer_cls.fq}.render_html_inline|an inline tag is never converted to an admonition"
+    if meth is None:
+        return  # reported by the routing check
+    site = meth.site()
+    alts = gate.get("negated", {}).get(adm_tag)
+    if not alts:
+        return  # no admonition alternative at all (reported elsewhere if that is wrong)
+    core_marks = set.intersection(*[set(a) for a in alts]) & set(cx.fi.params)
+    why = None
+    mark = None
+    if not core_marks:
+        why = f"no <{adm_tag}> alternative of the gate depends on an 'inline' parameter of {cx.fi.name}"
+    else:
+        # which entry parameter feeds the core mark
+        entry_marks = set()
+        for cm in core_marks:
+            if cx.delegate is None:
+                entry_marks.add(cm)
+            else:
+                idx = cx.fi.params.index(cm)
+                arg = cx.delegate.args[idx] if idx < len(cx.delegate.args) else next((k_.value for k_ in cx.delegate.keywords if k_.arg == cm), None)
+                if isinstance(arg, ast.Name) and arg.id in cx.entry.params:
+                    entry_marks.add(arg.id)
+        if not entry_marks:
+            why = f"the wrapper does not forward an 'inline' parameter to {cx.fi.name}"
+        else:
+            calls = [c for f, c in callers if f.fq == meth.fq]
+            if not calls:
+                why = "the handler does not call html_to_nodes itself (it goes through the block handler), so the call cannot be marked as inline"
+            for c in calls:
+                passed = False
+                for em in entry_marks:
+                    idx = cx.entry.params.index(em)
+                    arg = c.args[idx] if idx < len(c.args) else next((k_.value for k_ in c.keywords if k_.arg == em), None)
+                    if isinstance(arg, ast.Constant) and arg.value is True:
+                        passed, mark = True, em
+                    elif arg is not None and not isinstance(arg, ast.Constant):
+                        raise Unsupported(f"render_html_inline passes a non-literal `{em}`: {short(c, 60)}")
+                if not passed:
+                    why = why or f"`{short(c, 60)}` does not pass {sorted(entry_marks)[0]}=True"
+    if why is None:
+        rep.ok("C17.R1", k, site, f"{mark}=True -> `not {sorted(core_marks)[0]}` in every <{adm_tag}> alternative")
+    else:
+        rep.violation("C17.R1", k, site, f"{why}: `a <div class=\"admonition\">text</div> b` (also in a list item or table cell) hands the start tag alone to the block conversion, which replaces it by the error 'Content block expected for the \"admonition\" directive' and leaves an unbalanced raw `</div>`; without the extension the same tag is plain raw HTML")
+
+
+def _paragraph_flattening(cx: Ctx, rep: Report) -> None:
+    """`Some text<p>More</p>` inside the admonition: the children of a <p> are spliced into the Markdown body; the paragraph break
+    must be written on both sides, else 'Some text' runs into 'More' (one paragraph 'Some textMore')."""
+    found = 0
+    for fn in [f for f in cx.mod.functions.values() if not f.is_lambda]:
+        for iff in fn.local_nodes():
+            if not (isinstance(iff, ast.If) and _name_test(iff.test) is not None and _name_test(iff.test)[1] == "p"):
+                continue
+            var = _name_test(iff.test)[0]
+            ext = None
+            for i, st in enumerate(iff.body):
+                if isinstance(st, ast.Expr) and isinstance(st.value, ast.Call) and isinstance(st.value.func, ast.Attribute) and st.value.func.attr == "extend" and isinstance(st.value.func.value, ast.Name) and st.value.args and unparse(st.value.args[0]).startswith(f"{var}."):
+                    ext = (i, st, st.value.func.value.id)
+            if ext is None:
+                continue
+            found += 1
+            i, st, lst = ext
+
+            def is_sep(x) -> bool:
+                return isinstance(x, ast.Expr) and isinstance(x.value, ast.Call) and isinstance(x.value.func, ast.Attribute) and x.value.func.attr == "append" and unparse(x.value.func.value) == lst and any(isinstance(c, ast.Constant) and isinstance(c.value, str) and "\n\n" in c.value for c in ast.walk(x.value))
+
+            after = any(is_sep(x) for x in iff.body[i + 1 :])
+            before_plain = any(is_sep(x) for x in iff.body[:i])
+            before_cond = None
+            for x in iff.body[:i]:
+                if isinstance(x, ast.If) and not x.orelse and any(is_sep(y) for y in x.body):
+                    before_cond = x
+            k = f"{fn.fq}|<p> flattening|separated from what follows"
+            (rep.ok if after else rep.violation)("C17.R1", k, fn.module.site(st), *([] if after else ["the children of a <p> are spliced into the body without a paragraph break after them: `<p>a</p>b` becomes one paragraph `ab`"]))
+            k = f"{fn.fq}|<p> flattening|separated from what precedes"
+            if before_plain:
+                rep.ok("C17.R1", k, fn.module.site(st))
+            elif before_cond is not None:
+                # the break may be skipped only when nothing precedes or a break is already there: the test may only look at the list
+                names = {n.id for n in ast.walk(before_cond.test) if isinstance(n, ast.Name)}
+                foreign = names - {lst, "isinstance", "len"} - set(cx.mod.imports) - set(cx.mod.classes)
+                if foreign:
+                    rep.violation("C17.R1", k, fn.module.site(before_cond), f"the paragraph break before a <p> also depends on {sorted(foreign)} (`{short(before_cond.test, 60)}`): when that is false, text before the <p> runs into its first word (`Some text<p>More</p>` -> `Some textMore`)")
+                else:
+                    rep.ok("C17.R1", k, fn.module.site(before_cond), "skipped only when nothing precedes or a break is already there")
+            else:
+                rep.violation("C17.R1", k, fn.module.site(st), "the children of a <p> are spliced into the body with a paragraph break after them only: whatever precedes the <p> runs into its first word (`Some text<p>More text</p>` gives the single paragraph `Some textMore text`, `<b>Warning:</b><p>do not</p>` likewise)")
+    if found == 0:
+        raise Unsupported("no <p> flattening (`if child.name == 'p': body.extend(child.children)`) found in the html_to_nodes module")
 
 
 def _class_expr_kind(cx: Ctx, e: ast.expr, var: str | None, fn: FunctionInfo | None = None):
@@ -1113,9 +1329,12 @@ def _end_tags_from_source(cx: Ctx, rep: Report, level, funcs) -> None:
     k = f"{rnd.fq}|end tag only if closed in the source when {opt} is set"
     site = ph.site(end)
     cond = None
-    p_ = parent(end)
-    if isinstance(p_, ast.IfExp) and (p_.body is end or p_.orelse is end):
-        cond = p_.test if p_.body is end else ast.UnaryOp(op=ast.Not(), operand=p_.test)
+    endx: ast.AST = end
+    while isinstance(parent(endx), ast.BoolOp) and isinstance(parent(endx).op, ast.Or):
+        endx = parent(endx)  # `self.raw_end or f"</{self.name}>"`: the end tag as written, else synthesised - an end tag either way
+    p_ = parent(endx)
+    if isinstance(p_, ast.IfExp) and (p_.body is endx or p_.orelse is endx):
+        cond = p_.test if p_.body is endx else ast.UnaryOp(op=ast.Not(), operand=p_.test)
     if cond is None:
         rep.violation("C17.R1", k, site, f"{tag_cls.name}.render adds `</name>` unconditionally: with {opt}=True elements the source never closes still get an end tag")
         return
@@ -1432,6 +1651,139 @@ def _tokenizer_faithful(cx: Ctx, rep: Report) -> None:
             rep.violation("C17.R1", k, f.site(), f"{bad}: the start tag is rebuilt from html.parser's decoded name/attribute list when the admonition body is rendered back, so `<span title='say \"hi\"'>` becomes `<span title=\"say \"hi\"\">`, `&amp;` in attribute values is decoded and the autolink `<https://example.com>` becomes `<https: example.com>`: the inner Markdown is not carried over unchanged")
 
 
+def _parser_quirks_covered(cx: Ctx, rep: Report) -> None:
+    """Places where html.parser (facts re-read from the stdlib source) drops or rewrites input that may be Markdown text of an
+    admonition body, each with the cooperation the tokenizer class owes:
+      * ``</>`` is skipped without any callback -> parse_endtag must keep it as data and step over it;
+      * ``<!x>`` / ``</3>`` are reported through handle_comment without their delimiters -> the node must keep the source text,
+        the comment class must render it, and copies must keep it (html_to_nodes renders deep copies);
+      * an ``&#`` that does not start a character reference stalls goahead() (``break``) and close() then reports the whole rest,
+        tags included, as data -> feed() must keep the ``&#`` as data, advance and resume until nothing changes."""
+    ph = cx.corpus.mod("parsers.parse_html")
+    cands = [c_ for c_ in ph.classes.values() if any(b_.endswith("HTMLParser") for b_ in cx.corpus.external_bases(c_))]
+    if len(cands) != 1:
+        raise Unsupported("expected one HTMLParser subclass in parse_html")
+    ci = cands[0]
+    std = cx.corpus.sibling("stdlib:html/parser.py")
+    rep.saw_sibling(std.rel)
+    hp = std.classes.get("HTMLParser")
+    if hp is None:
+        raise AnchorMissing("HTMLParser not found in the stdlib html/parser.py")
+
+    def has_const(fn_node, value) -> bool:
+        return any(isinstance(x, ast.Constant) and x.value == value for x in ast.walk(fn_node))
+
+    # ---- </> ----
+    k = f"{ci.fq}.parse_endtag|an end tag without a name (`</>`) is kept as text"
+    std_pe = hp.methods.get("parse_endtag")
+    skips = std_pe is not None and has_const(std_pe.node, "</>")
+    pe = ci.methods.get("parse_endtag")
+    if not skips:
+        rep.ok("C17.R1", k, std.site(std_pe.node) if std_pe else std.rel, "this html.parser does not special-case `</>`")
+    elif pe is None:
+        rep.violation("C17.R1", k, ph.site(ci.node), f"html.parser skips `</>` without any callback and {ci.name} does not override parse_endtag: '`<>x</>`' in an admonition body loses its `</>`, and `<img src=a>\\n</>` is converted to the image alone")
+    else:
+        cfg = get_cfg(pe)
+        good = False
+        for c in pe.local_nodes():
+            if isinstance(c, ast.Call) and isinstance(c.func, ast.Attribute) and c.func.attr in ("handle_data",) or (isinstance(c, ast.Call) and isinstance(c.func, ast.Attribute) and c.func.attr.startswith("nest_")):
+                if any(isinstance(a, ast.Constant) and a.value == "</>" for a in ast.walk(c)):
+                    st = cfg.stmt_of(c)
+                    guarded = any(pol and any(isinstance(x, ast.Constant) and x.value == "</>" for x in ast.walk(t)) for t, pol in cfg.guards(st))
+                    stepped = any(isinstance(r, ast.Return) and isinstance(r.value, ast.BinOp) and isinstance(r.value.op, ast.Add) and isinstance(r.value.right, ast.Constant) and r.value.right.value == 3 and cfg.dominates(st, r) for r in pe.local_nodes())
+                    good = guarded and stepped
+        if good:
+            rep.ok("C17.R1", k, pe.site(), "kept as data, input advanced by 3")
+        else:
+            rep.violation("C17.R1", k, pe.site(), f"{ci.name}.parse_endtag does not keep `</>` as data and step over it (html.parser itself skips it without a callback): '`<>x</>`' in an admonition body loses its `</>`, `<img src=a>\\n</>` is converted to the image alone")
+    # ---- bogus comments ----
+    std_bc = hp.methods.get("parse_bogus_comment")
+    strips = std_bc is not None and any(isinstance(c, ast.Call) and isinstance(c.func, ast.Attribute) and c.func.attr == "handle_comment" for c in ast.walk(std_bc.node))
+    k1 = f"{ci.fq}.parse_bogus_comment|`<!x>` / `</3>` keep their source text"
+    bc = ci.methods.get("parse_bogus_comment")
+    attr = None
+    if not strips:
+        rep.ok("C17.R1", k1, std.rel, "this html.parser does not report bogus comments through handle_comment")
+    else:
+        if bc is not None:
+            for st in bc.local_nodes():
+                if isinstance(st, ast.Assign) and isinstance(st.targets[0], ast.Attribute) and isinstance(st.value, ast.Subscript) and dotted(st.value.value) == "self.rawdata" and isinstance(st.value.slice, ast.Slice):
+                    sl = st.value.slice
+                    if isinstance(sl.lower, ast.Name) and sl.lower.id == bc.params[1] and isinstance(sl.upper, ast.Name):
+                        attr = st.targets[0].attr
+        if attr is None:
+            rep.violation("C17.R1", k1, (bc.site() if bc else ph.site(ci.node)), f"html.parser reports `<!foo>` and `</3>` as comments without their delimiters and {ci.name} does not store the source text on the node: the admonition body 'a <!foo> b' is rendered back as the invisible comment 'a <!--foo--> b'")
+        else:
+            rep.ok("C17.R1", k1, bc.site(), f"node.{attr} = self.rawdata[i:j]")
+            hc = ci.methods.get("handle_comment")
+            ccls = None
+            if hc is not None:
+                for c in hc.local_nodes():
+                    if isinstance(c, ast.Call) and isinstance(c.func, ast.Attribute) and c.func.attr.startswith("nest_"):
+                        for a in c.args:
+                            if isinstance(a, ast.Name) and a.id in ph.classes:
+                                ccls = ph.classes[a.id]
+            if ccls is None:
+                raise Unsupported(f"{ci.name}.handle_comment: node class not found")
+            rnd = cx.corpus.lookup_method(ccls, "render")
+            k2 = f"{ccls.fq}.render|a comment with source text renders that text"
+            rets = [r for r in rnd.local_nodes() if isinstance(r, ast.Return)] if rnd else []
+            uses = bool(rets) and all(isinstance(r.value, ast.BoolOp) and isinstance(r.value.op, ast.Or) and unparse(r.value.values[0]) == f"self.{attr}" or (isinstance(r.value, ast.IfExp) and unparse(r.value.body) == f"self.{attr}" and f"self.{attr}" in unparse(r.value.test)) or unparse(r.value) == f"self.{attr}" for r in rets)
+            if not uses and rnd is not None:
+                rcfg = get_cfg(rnd)
+                uses = any(unparse(r.value) == f"self.{attr}" and rcfg.guards(r) for r in rets) and len(rets) >= 2
+            if uses:
+                rep.ok("C17.R1", k2, rnd.site())
+            else:
+                rep.violation("C17.R1", k2, rnd.site() if rnd else ph.site(ccls.node), f"{ccls.name}.render rebuilds `<!--...-->` even when the node carries its source text (self.{attr}): 'a <!foo> b' becomes the invisible comment 'a <!--foo--> b' in the admonition body")
+            dc = cx.corpus.lookup_method(ccls, "deepcopy")
+            k3 = f"{dc.fq if dc else ccls.fq}|copies keep the source text"
+            keeps = dc is not None and (any(isinstance(st, ast.Assign) and isinstance(st.targets[0], ast.Attribute) and st.targets[0].attr == attr and unparse(st.value) == f"self.{attr}" for st in dc.local_nodes()) or any(isinstance(c, ast.Call) and any(unparse(a) == f"self.{attr}" for a in list(c.args) + [k_.value for k_ in c.keywords]) for c in dc.local_nodes()))
+            if keeps:
+                rep.ok("C17.R1", k3, dc.site())
+            else:
+                rep.violation("C17.R1", k3, dc.site() if dc else ph.site(ccls.node), f"deepcopy of {ccls.name} does not copy `{attr}`: html_to_nodes renders the admonition body from `child.strip()` (a deep copy), whose bogus comments fall back to `<!--...-->`")
+    # ---- "&#" stall ----
+    ga = hp.methods.get("goahead")
+    stalls = False
+    if ga is not None:
+        for n in ast.walk(ga.node):
+            if isinstance(n, ast.If) and any(isinstance(x, ast.Constant) and x.value == "&#" for x in ast.walk(n.test)):
+                stalls = any(isinstance(x, ast.Break) for x in ast.walk(n))
+    k = f"{ci.fq}.feed|a stalled `&#` is kept as text and parsing resumes"
+    fm = ci.methods.get("feed")
+    if not stalls:
+        rep.ok("C17.R1", k, std.rel, "this html.parser does not stall at `&#`")
+    elif fm is None:
+        rep.violation("C17.R1", k, ph.site(ci.node), "html.parser stops at an `&#` that is no character reference and feed() is not overridden")
+    else:
+        fcfg = get_cfg(fm)
+        verdict = None
+        for w in fm.local_nodes():
+            if not isinstance(w, (ast.While, ast.For)):
+                continue
+            inner = [x for st in w.body for x in ast.walk(st)]
+            tests = [x for x in inner if isinstance(x, ast.If) and any(isinstance(c, ast.Constant) and c.value == "&#" for c in ast.walk(x.test))]
+            if not tests:
+                continue
+            t = tests[0]
+            body = [x for st in t.body for x in ast.walk(st)]
+            keeps = any(isinstance(c, ast.Call) and isinstance(c.func, ast.Attribute) and (c.func.attr == "handle_data" or c.func.attr.startswith("nest_")) and any(isinstance(a, ast.Constant) and a.value == "&#" for a in ast.walk(c)) for c in body)
+            advances = any(isinstance(st, ast.Assign) and unparse(st.targets[0]) == "self.rawdata" and isinstance(st.value, ast.Subscript) and isinstance(st.value.slice, ast.Slice) and isinstance(st.value.slice.lower, ast.Constant) and st.value.slice.lower.value == 2 for st in body)
+            resumes = [c for c in inner if isinstance(c, ast.Call) and unparse(c.func) in ("super().feed", "self.goahead", "HTMLParser.feed")]
+            resumes_all = bool(resumes) and not any(c in body for c in resumes if False) and any(fcfg.stmt_of(c) in w.body for c in resumes)
+            closes = [c for c in fm.local_nodes() if isinstance(c, ast.Call) and unparse(c.func) in ("self.close", "super().close")]
+            before_close = bool(closes) and all(fcfg.dominates(w, fcfg.stmt_of(c)) for c in closes)
+            missing = [nm for nm, ok_ in (("the `&#` is kept as data", keeps), ("the input is advanced past it", advances), ("parsing is resumed on every round of the loop", resumes_all), ("the loop runs before close()", before_close)) if not ok_]
+            verdict = missing
+        if verdict is None:
+            rep.violation("C17.R1", k, fm.site(), f"html.parser stops for good at an `&#` that does not start a character reference and close() then reports the whole rest - tags included - as data; {ci.name}.feed has no resume loop for it: '<div class=\"admonition\">\\nA &# B\\n</div>' yields the admonition plus a stray raw `</div>`, and a title `R&#D` loses title and body")
+        elif verdict:
+            rep.violation("C17.R1", k, fm.site(), f"the resume loop for a stalled `&#` in {ci.name}.feed is incomplete ({'; '.join('not: ' + x for x in verdict)}): after `A &# B` the closing tags of the admonition are still reported as text")
+        else:
+            rep.ok("C17.R1", k, fm.site(), "kept as data, advanced by 2, re-fed in a loop before close()")
+
+
 def _lit_text(l: ast.expr) -> str:
     neg = isinstance(l, ast.UnaryOp) and isinstance(l.op, ast.Not)
     a = l.operand if neg else l
@@ -1474,7 +1826,8 @@ def _whole_fragment_consumed(cx: Ctx, rep: Report, tk: FunctionInfo, feed: ast.C
             if isinstance(c, ast.Call) and unparse(c.func) in ("self.close", "super().close", "self.goahead") and sup:
                 if unparse(c.func) == "self.goahead" and not (c.args and isinstance(c.args[0], ast.Constant) and c.args[0].value):
                     continue
-                if all(fcfg.dominates(fcfg.stmt_of(s_), fcfg.stmt_of(c)) for s_ in sup):
+                # every path from each delegated feed to the normal exit passes the close (feeds may sit in a resume loop)
+                if all(fcfg.postdominates(fcfg.stmt_of(c), fcfg.stmt_of(s_)) and fcfg.stmt_of(c) is not fcfg.stmt_of(s_) for s_ in sup):
                     closers.append((fm, c))
     owner = k_fn or tk
     k = f"{owner.fq}|whole fragment tokenized (close after feed)"
@@ -1514,6 +1867,7 @@ def _fresh_tokenizer(cx: Ctx, rep: Report) -> None:
     recv = feed.func.value
     _whole_fragment_consumed(cx, rep, tk, feed)
     _tokenizer_faithful(cx, rep)
+    _parser_quirks_covered(cx, rep)
     k = f"{tk.fq}|parser state is per fragment"
     site = tm.site(feed)
 
@@ -1754,7 +2108,9 @@ def r2_gfm_filter(corpus: Corpus, rep: Report, tier: str):
     rep.rule("C17.R2", "GFM tag filter: language = '<' ['/'] nine spec tags, case-insensitive, name-terminator look-ahead, '<' neutralised, under gfm_only alone, before every use of the text")
     cx = _ctx(corpus)
     flt = _filter(corpus)
-    fi, m, cfg = cx.fi, cx.mod, cx.cfg
+    fi, m, cfg = flt.fn, flt.fn.module, flt.cfg
+    p_text = flt.p_text
+    p_renderer = cx.p_renderer if fi is cx.fi else (cx.entry.params[2] if len(cx.entry.params) > 2 else None)
     if flt.stmt is None:
         raise AnchorMissing("no substitution with a module-level compiled regex in html_to_nodes (the GFM tag filter)")
     rx_site = m.site(flt.compile_call)
@@ -1830,13 +2186,13 @@ def r2_gfm_filter(corpus: Corpus, rep: Report, tier: str):
     # subject and target
     k = f"{fi.fq}|filters the source text in place"
     fvar = flt.target  # the variable that holds the filtered text
-    if isinstance(flt.string, ast.Name) and flt.string.id == cx.p_text and flt.target == cx.p_text:
+    if isinstance(flt.string, ast.Name) and flt.string.id == p_text and flt.target == p_text:
         rep.ok("C17.R2", k, m.site(flt.stmt))
-    elif isinstance(flt.string, ast.Name) and flt.string.id in (cx.p_text, fvar):
+    elif isinstance(flt.string, ast.Name) and flt.string.id in (p_text, fvar):
         # `raw_text = text; if gfm_only: raw_text = RE.sub(.., text)`: the filtered copy is a second variable
-        others = [d for d in cx.defs_of(fvar) if not (d is flt.call or (isinstance(d, ast.Tuple) and _stmt_of_safe(cx, d) is flt.stmt))]
-        if not others or not all(isinstance(d, ast.Name) and d.id == cx.p_text for d in others):
-            raise Unsupported(f"`{fvar}` (the filtered text) has definitions other than `{cx.p_text}` and the filter")
+        others = [d for d in cx.defs_in(fi, fvar) if not (d is flt.call or (isinstance(d, ast.Tuple) and _stmt_of_safe(cx, d) is flt.stmt))]
+        if not others or not all(isinstance(d, ast.Name) and d.id == p_text for d in others):
+            raise Unsupported(f"`{fvar}` (the filtered text) has definitions other than `{p_text}` and the filter")
         rep.ok("C17.R2", k, m.site(flt.stmt), f"filtered copy kept in `{fvar}`")
     else:
         rep.violation("C17.R2", k, m.site(flt.stmt), f"the filter is applied to `{short(flt.string, 40) if flt.string is not None else '?'}`, not to the text that is passed on")
@@ -1851,7 +2207,7 @@ def r2_gfm_filter(corpus: Corpus, rep: Report, tier: str):
     t = flt.if_stmt.test
     d = dotted(t) or ""
     if isinstance(t, ast.Name):
-        defs = cx.defs_of(t.id)
+        defs = cx.defs_in(fi, t.id)
         d = dotted(defs[0]) or "" if len(defs) == 1 and isinstance(defs[0], ast.expr) else ""
     encl = parent(flt.if_stmt)
     outer = []
@@ -1861,7 +2217,7 @@ def r2_gfm_filter(corpus: Corpus, rep: Report, tier: str):
         elif isinstance(encl, ast.stmt):
             raise Unsupported(f"GFM filter nested in `{short(encl, 40)}`")
         encl = parent(encl)
-    if d.split(".")[0] == cx.p_renderer and d.endswith(".gfm_only") and not outer and not flt.if_stmt.orelse:
+    if d.split(".")[0] == p_renderer and d.endswith(".gfm_only") and not outer and not flt.if_stmt.orelse:
         rep.ok("C17.R2", k, m.site(flt.if_stmt), d)
     elif any((dotted(x) or "").endswith(".gfm_only") for x in ast.walk(t)) or outer:
         rep.violation("C17.R2", k, m.site(flt.if_stmt), f"the filter depends on more than gfm_only (`{short(t, 60)}`" + (f", nested under `{short(outer[0].test, 40)}`" if outer else "") + "): in GFM mode some configurations leave disallowed tags in place")
@@ -1879,7 +2235,7 @@ def r2_gfm_filter(corpus: Corpus, rep: Report, tier: str):
                 points.setdefault(st, "use of the text")
         elif isinstance(n, ast.Return):
             points.setdefault(cfg.stmt_of(n), "return")
-        if fvar != cx.p_text and isinstance(n, ast.Name) and n.id == cx.p_text and isinstance(n.ctx, ast.Load):
+        if fvar != p_text and isinstance(n, ast.Name) and n.id == p_text and isinstance(n.ctx, ast.Load):
             # the unfiltered parameter may feed the filter, the initial copy and the tokenizer, but must not be emitted
             p_ = parent(n)
             if isinstance(p_, ast.Call) and n in p_.args and dotted(p_.func) and not _is_tokenizer_call(cx, p_) and p_ is not flt.call:
@@ -1891,19 +2247,34 @@ def r2_gfm_filter(corpus: Corpus, rep: Report, tier: str):
     for n in unfiltered_emitted:
         st = cfg.stmt_of(n)
         k = f"{fi.fq}|unfiltered text emitted|{short(st, 90)}|{_where(st)}"
-        rep.violation("C17.R2", k, m.site(st), f"`{short(parent(n), 60)}` passes the unfiltered `{cx.p_text}` through although the GFM-filtered copy is `{fvar}`: in gfm_only mode disallowed tags reach the output on this path ({_where(st)})")
+        rep.violation("C17.R2", k, m.site(st), f"`{short(parent(n), 60)}` passes the unfiltered `{p_text}` through although the GFM-filtered copy is `{fvar}`: in gfm_only mode disallowed tags reach the output on this path ({_where(st)})")
     for st, kind in sorted(points.items(), key=lambda kv: kv[0].lineno):
         hdr = st.test if isinstance(st, (ast.If, ast.While)) else st
         k = f"{fi.fq}|filter precedes|{short(hdr, 90)}|{_where(st)}"
         if cfg.paths_avoiding("ENTRY", st, lambda x: x is flt.stmt or x == fedge):
-            if isinstance(st, (ast.If, ast.While)) or any(isinstance(x, ast.Name) and x.id == cx.p_text for t_, _ in cfg.guards(st) for x in ast.walk(t_)):
+            if isinstance(st, (ast.If, ast.While)) or any(isinstance(x, ast.Name) and x.id == p_text for t_, _ in cfg.guards(st) for x in ast.walk(t_)):
                 # e.g. `if not text: return ...` ahead of the filter: whether a text with disallowed tags can take this path depends on values
                 rep.error("C17.R2", f"`{short(hdr, 60)}` ({_where(st)}) precedes the GFM filter under a condition on the text itself: cannot decide statically whether filtered and unfiltered text differ there")
                 continue
             rep.violation("C17.R2", k, m.site(st), f"`{short(hdr, 60)}` ({kind}) is reachable in GFM mode without the tag filter having run: disallowed tags reach the output on that path")
         else:
             rep.ok("C17.R2", k, m.site(st), kind)
-    rep.expect_min("C17.R2", 12, "9 filter facts + the uses/returns of html_to_nodes on the pinned tree")
+    # the wrapper in front of the core function must not emit text the filter has not seen
+    if cx.entry is not cx.fi and fi is cx.fi:
+        ecfg = get_cfg(cx.entry)
+        for r in sorted((n for n in cx.entry.local_nodes() if isinstance(n, ast.Return) and n.value is not None), key=lambda n: n.lineno):
+            emits = False
+            for part in _split_add(r.value):
+                if isinstance(part, ast.Call) and part is not cx.delegate and dotted(part.func):
+                    callee = corpus.find_function(cx.entry.module.resolve(dotted(part.func)))
+                    if callee is not None and any(isinstance(c, ast.Call) and _resolves(callee.module, c.func, "docutils.nodes.raw") for c in callee.local_nodes()) and any(isinstance(x, ast.Name) and x.id == cx.entry_text for a_ in part.args for x in ast.walk(a_)):
+                        emits = True
+            k = f"{cx.entry.fq}|filter precedes|{short(r, 90)}|{_where(r)}"
+            if emits:
+                rep.violation("C17.R2", k, m.site(r), f"`{short(r, 70)}` ({_where(r)}) in the wrapper passes its own `{cx.entry_text}` through, but the GFM filter runs inside {cx.fi.name} on that function's copy: in gfm_only mode the fragment reaches the output unfiltered on this path (e.g. a deeply nested block that exhausts the recursion limit while an HTML extension is enabled), so disallowed tags such as <script> stay live")
+            else:
+                rep.ok("C17.R2", k, m.site(r), "delegates to the filtering function")
+    rep.expect_min("C17.R2", 10, "9 filter facts + the uses/returns of html_to_nodes on the pinned tree")
 
 
 
@@ -3278,6 +3649,68 @@ def mutants(corpus: Corpus):
             add("c17-gfm-unicode-case-folding", "C17.R2", splice(src, fl, ast.get_source_segment(src, keep)), "case-insensitive", note="revert 0ccf3c3: <tıtle> rewritten")
         else:
             out.append(("c17-gfm-unicode-case-folding", "the filter regex has no `| re.ASCII` flag"))
+    hin = corpus.lookup_method(cx.renderer_cls, "render_html_inline")
+    if hin is not None and hin.node.body:
+        first_ = hin.node.body[0]
+        tokp = hin.params[1] if len(hin.params) > 1 else "token"
+        ind_ = " " * first_.col_offset
+        add("c17-inline-shortcut-bypasses-html-to-nodes", "C17.R1", splice(hin.module.src, first_, f'if "html_image" not in self.md_config.enable_extensions:\n{ind_}    self.current_node.append(nodes.raw("", {tokp}.content, format="html"))\n{ind_}    return\n{ind_}' + ast.get_source_segment(hin.module.src, first_)), "routes to html_to_nodes", rel_=hin.module.rel, note="seed class: some inline tokens never reach html_to_nodes (GFM filter bypassed)")
+    # ---- round-14 repairs: reverts and partial weakenings ----
+    if hin is not None:
+        kw = find_node(hin, lambda n: isinstance(n, ast.keyword) and isinstance(n.value, ast.Constant) and n.value.value is True)
+        if kw is not None:
+            bsrc = hin.module.src
+            add("c17-inline-mark-not-passed", "C17.R1", splice(bsrc, kw.value, "False"), "an inline tag is never converted", rel_=hin.module.rel, note="revert 6751f78 at the handler")
+    flagdef = find_stmt(fi, lambda s_: isinstance(s_, ast.Assign) and isinstance(s_.value, ast.BoolOp) and isinstance(s_.value.op, ast.And) and any(isinstance(v, ast.UnaryOp) and isinstance(v.operand, ast.Name) and v.operand.id in fi.params for v in s_.value.values))
+    if flagdef is not None:
+        keepv = [v for v in flagdef.value.values if not (isinstance(v, ast.UnaryOp) and isinstance(v.operand, ast.Name) and v.operand.id in fi.params)]
+        add("c17-inline-mark-ignored-by-gate", "C17.R1", splice(src, flagdef.value, " and ".join(ast.get_source_segment(src, v) for v in keepv)), "an inline tag is never converted", note="the gate's <div> alternative no longer requires `not inline`")
+    if cx.delegate is not None and len(cx.delegate.args) > 3:
+        add("c17-inline-mark-not-forwarded", "C17.R1", splice(src, cx.delegate.args[3], "False"), "an inline tag is never converted", note="the wrapper drops the mark")
+    pif = find_node(fi, lambda n: isinstance(n, ast.If) and _name_test(n.test) is not None and _name_test(n.test)[1] == "p")
+    if pif is not None:
+        pre = next((x for x in pif.body if isinstance(x, ast.If)), None)
+        if pre is not None:
+            add("c17-paragraph-not-separated-from-preceding", "C17.R1", splice(src, pre, "pass"), "separated from what precedes", canary=True, note="revert f49422e")
+            add("c17-paragraph-separator-depends-on-attributes", "C17.R1", splice(src, pre.test, ast.get_source_segment(src, pre.test) + f" and {_name_test(pif.test)[0]}.attrs"), "separated from what precedes", note="weakened: break only for <p> with attributes")
+        lastapp = pif.body[-1]
+        if isinstance(lastapp, ast.Expr) and "append" in unparse(lastapp):
+            add("c17-paragraph-not-separated-from-following", "C17.R1", splice(src, lastapp, "pass"), "separated from what follows")
+    hfeed2 = hcls.methods.get("feed")
+    if hfeed2 is not None:
+        wl = find_stmt(hfeed2, lambda s_: isinstance(s_, ast.While))
+        if wl is not None:
+            add("c17-amp-hash-stall-not-resumed", "C17.R1", splice(psrc, wl, "pass"), "stalled `&#`", rel_=phm.rel, note="revert 71d08a0")
+            hd = find_stmt(hfeed2, lambda s_: isinstance(s_, ast.Expr) and "handle_data" in unparse(s_) and any(isinstance(c, ast.Constant) and c.value == "&#" for c in ast.walk(s_)))
+            if hd is not None:
+                add("c17-amp-hash-not-kept-as-text", "C17.R1", splice(psrc, hd, "pass"), "stalled `&#`", rel_=phm.rel, note="weakened: the `&#` is dropped")
+            rf = next((s_ for s_ in wl.body if isinstance(s_, ast.Expr) and unparse(s_.value.func if isinstance(s_.value, ast.Call) else s_) == "super().feed"), None)
+            if rf is not None:
+                add("c17-amp-hash-not-refed", "C17.R1", splice(psrc, rf, "pass"), "stalled `&#`", rel_=phm.rel, note="weakened: parsing is not resumed")
+    pe_ = hcls.methods.get("parse_endtag")
+    if pe_ is not None:
+        ifn = find_stmt(pe_, lambda s_: isinstance(s_, ast.If))
+        if ifn is not None:
+            add("c17-nameless-end-tag-skipped", "C17.R1", splice(psrc, ifn, "pass"), "end tag without a name", rel_=phm.rel, note="revert ae5edf3 (`</>`)")
+            hd = find_stmt(pe_, lambda s_: isinstance(s_, ast.Expr) and "handle_data" in unparse(s_))
+            if hd is not None:
+                add("c17-nameless-end-tag-stepped-over-but-dropped", "C17.R1", splice(psrc, hd, "pass"), "end tag without a name", rel_=phm.rel)
+    bc_ = hcls.methods.get("parse_bogus_comment")
+    if bc_ is not None:
+        asg_ = find_stmt(bc_, lambda s_: isinstance(s_, ast.Assign) and isinstance(s_.targets[0], ast.Attribute) and "rawdata" in unparse(s_.value))
+        if asg_ is not None:
+            add("c17-bogus-comment-source-not-stored", "C17.R1", splice(psrc, asg_, "pass"), "keep their source text", rel_=phm.rel, note="revert ae5edf3 (bogus comments)")
+    ccl = corpus.cls("parsers.parse_html:Comment")
+    cr_ = ccl.methods.get("render")
+    if cr_ is not None:
+        rr = find_stmt(cr_, lambda s_: isinstance(s_, ast.Return) and isinstance(s_.value, ast.BoolOp))
+        if rr is not None:
+            add("c17-bogus-comment-rebuilt", "C17.R1", splice(psrc, rr.value, ast.get_source_segment(psrc, rr.value.values[-1])), "renders that text", rel_=phm.rel)
+    tdc = corpus.cls("parsers.parse_html:TerminalElement").methods.get("deepcopy")
+    if tdc is not None:
+        cp2 = find_stmt(tdc, lambda s_: isinstance(s_, ast.Assign) and isinstance(s_.targets[0], ast.Attribute) and s_.targets[0].attr == "raw")
+        if cp2 is not None:
+            add("c17-bogus-comment-source-not-copied", "C17.R1", splice(psrc, cp2, "pass"), "copies keep the source text", rel_=phm.rel, note="weakened: html_to_nodes renders deep copies")
     tk = corpus.find_function(m.resolve("tokenize_html"))
     if tk is not None:
         asg = find_stmt(tk, lambda s_: isinstance(s_, ast.Assign) and isinstance(s_.value, ast.Call) and corpus.find_class(tk.module.resolve(dotted(s_.value.func) or "")) is not None)
